@@ -17,7 +17,7 @@ echo "{"
 if git apply --check $D/patch.diff 2>/dev/null; then res applies true; else res applies false; echo "\"done\": true }"; exit 0; fi
 # demo without change
 cp $D/seeded_demo_test.go $DEMO
-if go test -vet=off -count=1 -run 'TestSeededDemo$' ./$PKGDIR/ >/tmp/seedtask/$ID/out/$K/demo_without.log 2>&1; then res demo_passes_without_change true; else res demo_passes_without_change false; fi
+if go test $RACEFLAG -vet=off -count=1 -run 'TestSeededDemo$' ./$PKGDIR/ >/tmp/seedtask/$ID/out/$K/demo_without.log 2>&1; then res demo_passes_without_change true; else res demo_passes_without_change false; fi
 rm -f $DEMO
 git apply $D/patch.diff
 PKGS=$(git diff --name-only | xargs -n1 dirname | sort -u | sed 's#^#./#')
@@ -30,7 +30,7 @@ if go test -vet=off -count=1 $PKGS $EXTRA >/tmp/seedtask/$ID/out/$K/existing.log
   if go test -vet=off -count=1 $PKGS $EXTRA >/tmp/seedtask/$ID/out/$K/existing2.log 2>&1; then res existing_tests_pass true; else res existing_tests_pass false; fi
 fi
 cp $D/seeded_demo_test.go $DEMO
-if go test -vet=off -count=1 -run 'TestSeededDemo$' ./$PKGDIR/ >/tmp/seedtask/$ID/out/$K/demo_with.log 2>&1; then res demo_fails_with_change false; else res demo_fails_with_change true; fi
+if go test $RACEFLAG -vet=off -count=1 -run 'TestSeededDemo$' ./$PKGDIR/ >/tmp/seedtask/$ID/out/$K/demo_with.log 2>&1; then res demo_fails_with_change false; else res demo_fails_with_change true; fi
 rm -f $DEMO
 git checkout -q -- . ; git clean -fdq
 echo "\"head\": \"$(git -C /repo rev-parse --short HEAD)\", \"done\": true }"
